@@ -285,6 +285,9 @@ def render_fn(fn, recipe, log):
             raise ExtractError(f"drop pattern {pat!r} matched {len(mm)} times")
         log["dropped_text"].append(mm[0].group(0).strip())
         body = body[:mm[0].start()] + body[mm[0].end():]
+    # generic desugarings (order matters: chains first, then patterns)
+    for d in recipe.get("desugar", []):
+        body = DESUGARINGS[d](body, log)
     # rewrites
     for pat, repl, why in recipe.get("rewrite", []):
         new, k = re.subn(pat, repl, body)
@@ -327,3 +330,140 @@ def find_const_item(src, name):
     if not m:
         raise ExtractError(f"const {name} not found")
     return m.group(0)
+
+
+# ---------------------------------------------------------------------------
+# Generic, semantics-preserving desugarings (applied only when a recipe asks for
+# them with `desugar: [...]`; every application is counted in the evidence).
+#
+#   let_chains : `if A && let P = E && B { body }`      (no `else`)
+#                -> `if A { if let P = E { if B { body } } }`
+#                (Rust reference: let chains evaluate left to right and bind as
+#                nested `if let`; without an `else` the nesting is equivalent.)
+#   deref_pat  : `if let Some(&x) = E { body }`
+#                -> `if let Some(x__r) = E { let x = *x__r; body }`
+#   ref_pat    : `if let Some(ref x) = E { body }`
+#                -> `if let Some(x) = &E { body }`        (match ergonomics)
+# A construct outside these exact shapes raises ExtractError (=> UNDECIDED).
+# ---------------------------------------------------------------------------
+
+def _split_top_level_and(cond):
+    parts, depth, last = [], 0, 0
+    toks = list(_scan_tokens(cond, 0))
+    i = 0
+    while i < len(toks):
+        pos, ch = toks[i]
+        if ch in "([{":
+            depth += 1
+        elif ch in ")]}":
+            depth -= 1
+        elif ch == "&" and depth == 0 and cond.startswith("&&", pos):
+            parts.append(cond[last:pos])
+            last = pos + 2
+            i += 1  # skip second '&'
+        i += 1
+    parts.append(cond[last:])
+    return [p.strip() for p in parts]
+
+
+def _find_ifs(body):
+    """Yield (if_pos, cond_start, block_open, block_close) for every structural `if`."""
+    sset = set(p for p, _ in _scan_tokens(body, 0))
+    out = []
+    for m in re.finditer(r"\bif\b", body):
+        if m.start() not in sset:
+            continue
+        depth = 0
+        block_open = None
+        for pos, ch in _scan_tokens(body, m.end()):
+            if ch in "([":
+                depth += 1
+            elif ch in ")]":
+                depth -= 1
+            elif ch == "{" and depth == 0:
+                block_open = pos
+                break
+        if block_open is None:
+            raise ExtractError("if without block")
+        out.append((m.start(), m.end(), block_open, match_brace(body, block_open)))
+    return out
+
+
+def desugar_let_chains(body, log):
+    count = 0
+    while True:
+        changed = False
+        for if_pos, cstart, bopen, bclose in _find_ifs(body):
+            cond = body[cstart:bopen]
+            parts = _split_top_level_and(cond)
+            if len(parts) < 2 or not any(re.match(r"let\b", p) for p in parts):
+                continue
+            nxt = _skip_ws_comments(body, bclose + 1)
+            if body.startswith("else", nxt) and not (body[nxt + 4:nxt + 5].isalnum() or body[nxt + 4:nxt + 5] == "_"):
+                raise ExtractError("let chain with an else branch: desugaring not defined")
+            # is this `if` itself an `else if`? then nesting would change the else structure
+            j = if_pos - 1
+            while j >= 0 and body[j].isspace():
+                j -= 1
+            if body[max(0, j - 3):j + 1] == "else":
+                raise ExtractError("let chain in an `else if`: desugaring not defined")
+            head = "".join(f"if {p} {{ " for p in parts[:-1]) + f"if {parts[-1]} "
+            tail = " }" * (len(parts) - 1)
+            body = body[:if_pos] + head + body[bopen:bclose + 1] + tail + body[bclose + 1:]
+            count += 1
+            changed = True
+            break
+        if not changed:
+            break
+    if count:
+        log["rewrites"].append(f"desugar let_chains: {count} `if .. && let ..` chain(s) rewritten as nested if / if-let (no else branch present)")
+    return body
+
+
+def desugar_deref_patterns(body, log):
+    count = 0
+    while True:
+        m = None
+        for if_pos, cstart, bopen, bclose in _find_ifs(body):
+            cond = body[cstart:bopen]
+            mm = re.match(r"\s*let\s+Some\(&(\w+)\)\s*=", cond)
+            if mm:
+                m = (cstart, bopen, mm)
+                break
+        if not m:
+            break
+        cstart, bopen, mm = m
+        name = mm.group(1)
+        cond = body[cstart:bopen]
+        new_cond = cond[:mm.start(1) - 1] + f"{name}_r" + cond[mm.end(1):]
+        body = body[:cstart] + new_cond + "{ let " + name + " = *" + name + "_r;" + body[bopen + 1:]
+        count += 1
+    if count:
+        log["rewrites"].append(f"desugar deref_pat: {count} `if let Some(&x) = E {{..}}` -> `if let Some(x_r) = E {{ let x = *x_r; ..}}`")
+    return body
+
+
+def desugar_ref_patterns(body, log):
+    count = 0
+    while True:
+        hit = None
+        for if_pos, cstart, bopen, bclose in _find_ifs(body):
+            cond = body[cstart:bopen]
+            mm = re.match(r"(\s*let\s+Some\()ref\s+(\w+)(\)\s*=\s*)(.*?)\s*$", cond, re.S)
+            if mm:
+                hit = (cstart, bopen, mm)
+                break
+        if not hit:
+            break
+        cstart, bopen, mm = hit
+        expr = mm.group(4)
+        if not re.fullmatch(r"[\w\.]+", expr):
+            expr = "(" + expr + ")"
+        body = body[:cstart] + mm.group(1) + mm.group(2) + mm.group(3) + "&" + expr + " " + body[bopen:]
+        count += 1
+    if count:
+        log["rewrites"].append(f"desugar ref_pat: {count} `if let Some(ref x) = E` -> `if let Some(x) = &E`")
+    return body
+
+
+DESUGARINGS = {"let_chains": desugar_let_chains, "deref_pat": desugar_deref_patterns, "ref_pat": desugar_ref_patterns}
